@@ -6,6 +6,22 @@ VERIF = os.path.dirname(os.path.dirname(os.path.abspath(__file__)))
 BASE = "cd /repo && /venv/bin/python -m pytest -ra -q -p no:cacheprovider --timeout=900 --continue-on-collection-errors"
 
 CLAIMED = {
+    "C06": dict(
+        text="Coq theorems over an executable model of the capsule protocol of the generated C API ({addr, idtor}, constructor "
+             "and owner(caller)/library result wrappers, method wrappers, the class destructor wrapper, SHROUD_memory_destructor): "
+             "for every call history of any length in which handles are not copied and not used after release, no operation "
+             "fails, every object is freed at most once, library-owned objects never, every caller-owned object exactly once "
+             "when all handles are released, releasing twice is a no-op (invariant by induction over fold of step). The statement "
+             "with handle copies is refuted (double release / use after release) = known finding. Table theorems over the "
+             "regenerated statement table (c and c++): temporaries freed by the same entry on the same variable; every object "
+             "created with new carries a release code deleting exactly that type. Tie: extracted model vs the generated C API of "
+             "a class library built from /repo under AddressSanitizer, same operation sequences (first failing operation, class "
+             "of error, live-object counters).",
+        note="Trusted: Coq kernel, extraction, OCaml driver, Python harness, tools/cgen/cap (subject library + C++ driver), g++ "
+             "AddressSanitizer. Not modelled: when Fortran finalisers / Python GC release a handle; Python reference counts on "
+             "fail paths; bounds of string helpers are C10's theorems.",
+        technique="Coq proof over hand model + regenerated-table theorems + extracted-model correspondence against ASan-instrumented generated code",
+        design="4/C06"),
     "C08": dict(
         text="Coq theorems over an executable model of the function expansion and naming of a scope "
              "(GenFunctions.define_function_suffix / has_default_args / template_function / generic_function suffix logic, "
